@@ -32,7 +32,7 @@ def build(seed, prop, idx, o=None):
         lam = o.get("lambda_", gen.choice(rng, [0.1, 1.0, 10.0, 0, None]))
         if lam is not None:
             mp["lambda_"] = lam
-        mp["seed"] = int(rng.integers(0, 1000))
+        mp["seed"] = int(rng.integers(0, 1000)) if rng.random() < 0.8 else 0
         fe = o.get("fixed_effects")
         if fe is None:
             fe = gen.random_fixed_effects(rng, el, p_any=0.3)
@@ -56,6 +56,8 @@ def build(seed, prop, idx, o=None):
                 mp["robust"] = True
         if rng.random() < 0.15:
             mp["lambda_"] = float(gen.choice(rng, [0.5, 5.0]))
+        if rng.random() < 0.35:
+            mp["seed"] = int(gen.choice(rng, [0, 0, 1, 7, 4191]))
     # eligibility parameters
     if rng.random() < 0.3:
         ids = list(el.pre.geographic_unit_fips)
